@@ -603,8 +603,9 @@ class AttributeCollection(MutableMapping[int, Attribute]):
                     missing -= 1
                 else:
                     segments.append(segment)
-            for segment in as4path.aspath:
-                if segments and isinstance(segment, SEQUENCE) and isinstance(segments[-1], SEQUENCE):
+            for position, segment in enumerate(as4path.aspath):
+                # only where the two paths meet: the segments of AS4_PATH itself are kept as sent
+                if position == 0 and segments and isinstance(segment, SEQUENCE) and isinstance(segments[-1], SEQUENCE):
                     segments[-1] = SEQUENCE(list(segments[-1]) + list(segment))
                 else:
                     segments.append(segment)
